@@ -5,6 +5,7 @@ Part 1: the scanners and the tokeniser never drop, alter or duplicate text
 -/
 import DTML.Scan
 import DTML.Parse
+import DTML.Render
 set_option linter.unusedVariables false
 namespace DTML.Props.C01
 open DTML.Scan DTML.Parse
@@ -64,7 +65,6 @@ theorem scanHtml_reconstruct : ∀ (s lit rest : Text) (tk : Tok),
         obtain ⟨rfl, rfl, rfl⟩ := h
         rw [candidate_text _ _ _ hc]
         simp
-      · cases h
       · cases hq : scanHtml t with
         | none => simp [hq] at h
         | some v =>
@@ -198,5 +198,246 @@ theorem tagfree_identity (syn : Syntax) (src : Text) (h : scan syn src = none) :
   cases src with
   | nil => simp [litNode]
   | cons c t => simp [litNode]
+
+
+/-! ### Part 2: the block builder keeps every literal, in order
+
+The compiled tree's literal nodes, read left to right through all nesting, are exactly the
+literals between the tags (and the trailing text), each either unchanged or with one line end
+skipped (`skipEol`), empty ones left out.  Nothing else is ever a literal node. -/
+
+mutual
+/-- the literal texts of a node, in document order -/
+def nodeLits : Node → List Text
+  | .lit s => [s]
+  | .simple _ _ _ => []
+  | .block _ _ secs => secsLits secs
+def secsLits : List (Section Node) → List Text
+  | [] => []
+  | s :: t => nodesLits s.body ++ secsLits t
+def nodesLits : List Node → List Text
+  | [] => []
+  | n :: t => nodeLits n ++ nodesLits t
+end
+
+theorem nodesLits_append (a b : List Node) : nodesLits (a ++ b) = nodesLits a ++ nodesLits b := by
+  induction a with
+  | nil => simp [nodesLits]
+  | cons x t ih => simp [nodesLits, ih]
+
+theorem secsLits_append (a b : List (Section Node)) : secsLits (a ++ b) = secsLits a ++ secsLits b := by
+  induction a with
+  | nil => simp [secsLits]
+  | cons x t ih => simp [secsLits, ih]
+
+/-- a literal that is not empty -/
+def ne (l : Text) : List Text := if l.isEmpty then [] else [l]
+
+theorem nodesLits_litNode (l : Text) : nodesLits (litNode l) = ne l := by
+  unfold litNode ne
+  split <;> simp [nodesLits, nodeLits]
+
+/-- literals of an open block, in order: finished sections, then the section being read -/
+def frameLits (f : Frame) : List Text := secsLits f.done ++ nodesLits f.cur.reverse
+
+/-- literals collected so far: top level first, then the open blocks from the outermost inwards -/
+def soFar (stack : List Frame) (top : List Node) : List Text :=
+  nodesLits top.reverse ++ (stack.reverse.map frameLits).flatten
+
+theorem soFar_pushNodes (ns : List Node) (stack : List Frame) (top : List Node) :
+    soFar (pushNodes ns stack top).1 (pushNodes ns stack top).2 = soFar stack top ++ nodesLits ns := by
+  cases stack with
+  | nil => simp [pushNodes, soFar, nodesLits_append]
+  | cons f fs =>
+    simp [pushNodes, soFar, frameLits, nodesLits_append, List.append_assoc]
+
+/-- the literal a token contributes: a line end is skipped when it directly follows a block tag -/
+def adj (b : Bool) (l : Text) : Text := if b then skipEol l else l
+
+/-- the literals expected from a token stream, given for every literal whether it follows a block tag -/
+def expectLits : List Bool → List Text → List Text
+  | b :: bs, l :: ls => ne (adj b l) ++ expectLits bs ls
+  | _, _ => []
+
+theorem soFar_cons (f : Frame) (stack : List Frame) (top : List Node) :
+    soFar (f :: stack) top = soFar stack top ++ frameLits f := by
+  simp [soFar, List.append_assoc]
+
+theorem expectLits_cons (b : Bool) (bs : List Bool) (l : Text) (ls : List Text) :
+    expectLits (b :: bs) (l :: ls) = ne (adj b l) ++ expectLits bs ls := rfl
+
+/-- **Builder invariant**: whatever state the builder is in, if it finishes, the tree's literals
+are the ones collected so far followed by the remaining token literals and the tail, each
+unchanged or with one skipped line end, in order. -/
+theorem buildAux_lits (syn : Syntax) : ∀ (ps : List (Text × Tok)) (tail : Text) (idx : Nat) (afterBT : Bool)
+    (stack : List Frame) (top : List Node) (exprs : List ExprUse) (out : Out),
+    buildAux syn ps tail idx afterBT stack top exprs = .ok out →
+    ∃ bs : List Bool, bs.length = ps.length ∧
+      nodesLits out.nodes = soFar stack top ++ expectLits (afterBT :: bs) (ps.map (·.1) ++ [tail]) := by
+  intro ps
+  induction ps with
+  | nil =>
+    intro tail idx afterBT stack top exprs out h
+    simp only [buildAux] at h
+    cases stack with
+    | cons f fs => cases h
+    | nil =>
+      simp only [Except.ok.injEq] at h
+      subst h
+      refine ⟨[], rfl, ?_⟩
+      simp only [List.reverse_append, List.reverse_reverse, nodesLits_append, soFar, List.reverse_nil, List.map_nil,
+        List.flatten_nil, List.append_nil, List.nil_append, expectLits, adj]
+      rw [nodesLits_litNode]
+  | cons pt rest ih =>
+    intro tail idx afterBT stack top exprs out h
+    obtain ⟨lit, tk⟩ := pt
+    simp only [buildAux] at h
+    have hadj : (if afterBT = true then skipEol lit else lit) = adj afterBT lit := rfl
+    rw [hadj] at h
+    -- it suffices that the builder continues from a state that has collected exactly one more literal
+    have fin : ∀ (b' : Bool) (stack' : List Frame) (top' : List Node) (idx' : Nat) (exprs' : List ExprUse),
+        soFar stack' top' = soFar stack top ++ ne (adj afterBT lit) →
+        buildAux syn rest tail idx' b' stack' top' exprs' = .ok out →
+        ∃ bs : List Bool, bs.length = ((lit, tk) :: rest).length ∧
+          nodesLits out.nodes = soFar stack top ++
+            expectLits (afterBT :: bs) (((lit, tk) :: rest).map (·.1) ++ [tail]) := by
+      intro b' stack' top' idx' exprs' hs hb
+      obtain ⟨bs, hl, he⟩ := ih tail idx' b' stack' top' exprs' out hb
+      refine ⟨b' :: bs, by simp [hl], ?_⟩
+      rw [he, hs, List.append_assoc]
+      simp only [List.map_cons, List.cons_append, expectLits_cons]
+    cases hr : tagRole syn tk (stack.head?.map fun f => (f.cmd, f.sargs)) with
+    | error e => rw [hr] at h; cases h
+    | ok role =>
+      rw [hr] at h
+      cases role with
+      | start cmd args =>
+        simp only at h
+        by_cases hb : cmd.isBlock = true
+        · simp only [hb, if_true] at h
+          refine fin _ _ _ _ _ ?_ h
+          rw [soFar_cons, soFar_pushNodes, nodesLits_litNode]
+          simp [frameLits, secsLits, nodesLits]
+        · simp only [hb, Bool.false_eq_true, if_false] at h
+          cases hc : checkSimple cmd args with
+          | error e => rw [hc] at h; cases h
+          | ok b =>
+            rw [hc] at h
+            simp only at h
+            refine fin _ _ _ _ _ ?_ h
+            rw [soFar_pushNodes, nodesLits_append, nodesLits_litNode]
+            simp [nodesLits, nodeLits]
+      | cont name args =>
+        simp only at h
+        cases stack with
+        | nil => cases h
+        | cons f fs =>
+          simp only at h
+          refine fin _ _ _ _ _ ?_ h
+          rw [soFar_cons, soFar_cons]
+          simp only [frameLits, secsLits_append, secsLits, List.reverse_append, List.reverse_reverse, nodesLits_append,
+            nodesLits_litNode, List.reverse_nil, nodesLits, List.append_nil, List.append_assoc]
+      | close args =>
+        simp only at h
+        cases stack with
+        | nil => cases h
+        | cons f fs =>
+          simp only at h
+          split at h
+          · cases h
+          · refine fin _ _ _ _ _ ?_ h
+            rw [soFar_pushNodes, soFar_cons]
+            simp only [frameLits, nodesLits, nodeLits, secsLits_append, secsLits, List.reverse_append, List.reverse_reverse,
+              nodesLits_append, nodesLits_litNode, List.append_nil, List.append_assoc]
+
+/-- **Compiling keeps every literal, verbatim and in order.**  If a source compiles, the literal
+nodes of the compiled tree (read in document order through all nesting) are exactly the texts
+between its tags followed by the trailing text — each either unchanged or with one run of blanks
+ending in a newline removed from its start (`skipEol`, only ever applied right after a tag), empty
+ones omitted.  Together with `tokens_lossless` (texts and tags, concatenated, are the source) and
+`skipEol_spec` this is: nothing outside tags is altered, duplicated, reordered or dropped except
+such a line end. -/
+theorem compile_literals (syn : Syntax) (src : Text) (out : Out) (h : compile syn src = .ok out) :
+    ∃ bs : List Bool, bs.length = (tokens syn src).1.length ∧
+      nodesLits out.nodes = expectLits (false :: bs) ((tokens syn src).1.map (·.1) ++ [(tokens syn src).2]) := by
+  unfold compile at h
+  generalize tokens syn src = tk at h ⊢
+  obtain ⟨ps, tl⟩ := tk
+  simp only at h ⊢
+  obtain ⟨bs, hl, he⟩ := buildAux_lits syn ps tl 0 false [] [] [] out h
+  refine ⟨bs, hl, ?_⟩
+  rw [he]
+  simp only [soFar, List.reverse_nil, nodesLits, List.map_nil, List.flatten_nil, List.append_nil, List.nil_append]
+
+
+/-! ### Part 3: rendering emits literals verbatim, in order, once per rendering of their block -/
+
+section Rendering
+open DTML.Render
+
+/-- **A literal block renders to itself**, touching nothing -/
+theorem lit_verbatim (env : Env) (fuel : Nat) (s : Render.Text) (st : St) :
+    renderBlk env (fuel + 1) (.lit s) st = (.ok (if s.isEmpty then [] else [.text s]), st) := by
+  unfold renderBlk
+  simp [pieceEmpty]
+
+/-- **Blocks are rendered in source order and their outputs appended in that order**, nothing
+else is inserted between them -/
+theorem blocks_in_order (env : Env) (fuel : Nat) (b : Blk) (rest : List Blk) (st st1 st2 : St)
+    (ps qs : List Piece)
+    (hb : renderBlk env fuel b st = (.ok ps, st1)) (hr : renderBlocks env fuel rest st1 = (.ok qs, st2)) :
+    renderBlocks env (fuel + 1) (b :: rest) st = (.ok (ps ++ qs), st2) := by
+  simp only [renderBlocks, hb, hr]
+
+/-- text before a tag comes out before the tag's insertion, text after it after -/
+theorem literal_around (env : Env) (fuel : Nat) (a c : Render.Text) (b : Blk) (st st1 : St) (ps : List Piece)
+    (ha : a ≠ []) (hc : c ≠ [])
+    (hb : renderBlk env (fuel + 2) b st = (.ok ps, st1)) :
+    renderBlocks env (fuel + 4) [.lit a, b, .lit c] st = (.ok (.text a :: ps ++ [.text c]), st1) := by
+  have h1 := lit_verbatim env (fuel + 2) a st
+  have h3 := lit_verbatim env fuel c st1
+  have ea : a.isEmpty = false := by cases a <;> simp_all
+  have ec : c.isEmpty = false := by cases c <;> simp_all
+  simp only [ea, ec, Bool.false_eq_true, if_false] at h1 h3
+  have r3 : renderBlocks env (fuel + 2) [.lit c] st1 = (.ok [.text c], st1) := by
+    have := blocks_in_order env (fuel + 1) (.lit c) [] st1 st1 st1 [.text c] [] h3 (by simp [renderBlocks])
+    simpa using this
+  have r2 := blocks_in_order env (fuel + 2) b [.lit c] st st1 st1 ps [.text c] hb r3
+  have r1 := blocks_in_order env (fuel + 3) (.lit a) [b, .lit c] st st st1 [.text a] (ps ++ [.text c]) h1 r2
+  simpa using r1
+
+/-- **A source without tags renders to itself** (model side: its compiled form is the single
+literal, `tagfree_identity`; here: that template's call returns exactly that text) -/
+theorem tagfree_renders_itself (env : Env) (fuel : Nat) (s : Render.Text) (c : CallArgs) (g v : List (Render.Text × Val)) :
+    (topCall env (fuel + 3) { blocks := if s.isEmpty then [] else [.lit s], globals := g, vars := v } c).1 = .ok (.str s) := by
+  by_cases hs : s.isEmpty = true
+  · have : s = [] := by cases s <;> simp_all
+    subst this
+    simp [topCall, renderBlocks, joinPieces, valOfPiece]
+  · let st0 : St := { stack := callStack { blocks := [.lit s], globals := g, vars := v } c, level := 1 }
+    have hl := lit_verbatim env (fuel + 1) s st0
+    simp only [hs, Bool.false_eq_true, if_false] at hl ⊢
+    have hn : renderBlocks env (fuel + 2) [] st0 = (.ok [], st0) := by simp only [renderBlocks]
+    have := blocks_in_order env (fuel + 2) (.lit s) [] st0 st0 st0 [.text s] [] hl hn
+    simp only [List.append_nil] at this
+    simp only [topCall]
+    rw [show ({ stack := callStack { blocks := [Blk.lit s], globals := g, vars := v } c, level := 1 } : St) = st0 from rfl, this]
+    simp only [joinPieces, valOfPiece]
+
+/-- a body's literal is emitted each time, and only when, the body is rendered: e.g. a
+conditional whose condition is false emits nothing of its body (C09 has the general statement) -/
+theorem literal_only_when_rendered (env : Env) (fuel : Nat) (s : Render.Text) (st : St) :
+    (renderBlk env (fuel + 4) (.cond [(.expr (.lit (.bool false)), [.lit s])] none) st).1 = .ok [] ∧
+    (s ≠ [] → (renderBlk env (fuel + 4) (.cond [(.expr (.lit (.bool true)), [.lit s])] none) st).1 = .ok [.text s]) := by
+  constructor
+  · simp [renderBlk, condLoop, evalExpr, truthy]
+  · intro hs
+    have es : s.isEmpty = false := by cases s <;> simp_all
+    simp [renderBlk, condLoop, evalExpr, truthy, renderBlocks, pieceEmpty, es]
+
+end Rendering
+
+/-- the first literal of a source is never touched -/
+theorem adj_false (l : Text) : adj false l = l := rfl
 
 end DTML.Props.C01
